@@ -101,9 +101,43 @@ def one(args):
             'reordering_forced': bool(delays)}
 
 
+def analyzer_stream(ctx, quick):
+    """no document content may kill (or hang) an analysis: the analyzers the servers run, in process, under a watchdog"""
+    rng = ctx.rng
+    lines = []
+    k = 0
+    fixed = {'applesoft': ['10 ONERR GOTO 100: REM x\n100 END\n', '10 ONERR GOTO 100:REM\n', '10 PRINT "é":REM é\n', '10 A=1:B=2:REM x:ONERR GOTO 10\n'],
+             'integerbasic': ['10 PRINT "é"\n', '10 REM é\n', '10 IF X THEN REM x \n'],
+             'merlin': ['L2 TXé .D\n', ' LDé #1\n', 'é\n', ' ASC "é"\n', ' LUP 2\n --^\n', ' MAC\n', ' <<<\n', 'L PUT é\n', ' DO 1\n', ' FIN\n', ' ELSE\n', 'é EQU é\n', ' ADRLé 1\n', ' STRé "a"\n']}
+    for lang, docs in fixed.items():
+        for t in docs:
+            lines.append(f"analyze z{k} {lang} {t.encode().hex() or '-'}")
+            k += 1
+    for lang in SERVERS:
+        for i in range(60 if quick else 3000):
+            t = doc_text(rng, lang, broken=rng.random() < 0.7)
+            lines.append(f"analyze z{k} {lang} {t.encode().hex() or '-'}")
+            k += 1
+    out = fw.run_lines(fw.HARNESS_BIN, lines, timeout=2400)
+    st = collections.Counter()
+    for ln in lines:
+        t = ln.split()
+        o = out.get(t[1])
+        ctx.evaluations += 1
+        if o is not None and o.startswith('ok'):
+            st[t[2] + ' analysed'] += 1
+            ctx.nontrivial.add(ln)
+        else:
+            kind = 'hang' if 'hang' in (o or '') else 'panic' if 'panic' in (o or '').lower() else 'crash'
+            st['FAIL ' + kind] += 1
+            ctx.failures.append({'cls': f"lsp:{t[2]}:analysis-{kind}", 'case': ln[:3000], 'detail': (o or 'NO-OUTPUT')[:500], 'text': bytes.fromhex(t[3] if t[3] != '-' else '').decode(errors='replace')[:300]})
+    return dict(st)
+
+
 def run(ctx, model_ok=True):
     quick = ctx.tier == 'quick'
     rng = ctx.rng
+    astats = analyzer_stream(ctx, quick)
     n = 8 if quick else 120
     jobs = []
     for lang in SERVERS:
@@ -131,7 +165,7 @@ def run(ctx, model_ok=True):
                 ctx.nontrivial.add(f"{r['seed']} {r['lang']}")
     ctx.samples += [f"scenario seed={jobs[-1][0]} lang={jobs[-1][1]}"]
     ctx.distribution = {'rule': 'distinct (seed, server) notification histories, each with its own delay schedule for the analysis threads; non-trivial = all checks passed incl. comparison with a fresh server',
-                        'histories': len(jobs), 'outcomes': dict(stats)}
+                        'histories': len(jobs), 'outcomes': dict(stats), 'analyzer_documents': astats}
 
 
 def replay(ctx, rp):
